@@ -2,6 +2,7 @@ package main
 
 import (
 	"fmt"
+	"os"
 	"go/constant"
 	"go/token"
 	"go/types"
@@ -27,6 +28,7 @@ type loopInfo struct {
 	modAll    bool
 	modCells  map[*ssa.Alloc]bool
 	houdini   []*houdiniCand
+	splitExit bool
 }
 
 type nodeKey struct {
@@ -60,11 +62,15 @@ type Frame struct {
 	callCount map[string]int
 	idxCount  map[string]int
 	pred    map[nodeKey]nodeKey
+	ghostVals []Value
 }
 
 type retInfo struct {
-	st   *State
-	vals []Value
+	st     *State
+	vals   []Value
+	ghosts []Value
+	line   int
+	tag    int
 }
 
 func (vc *VC) newFrame(fn *ssa.Function, c *Contract, top bool) *Frame {
@@ -119,6 +125,7 @@ func (f *Frame) analyzeLoops() error {
 		}
 		if li.spec != nil && li.spec.Unroll > 0 {
 			li.unroll = li.spec.Unroll
+			li.splitExit = li.spec.SplitExit
 		}
 	}
 	if f.c != nil {
@@ -171,6 +178,7 @@ func (f *Frame) nodeOrder() []nodeKey {
 	order := f.rpo()
 	var out []nodeKey
 	done := map[*ssa.BasicBlock]bool{}
+	tags := 0 // > 0: blocks after a split-exit loop are emitted once per exit tag
 	for _, b := range order {
 		if done[b] {
 			continue
@@ -188,10 +196,15 @@ func (f *Frame) nodeOrder() []nodeKey {
 					out = append(out, nodeKey{x, it})
 				}
 			}
+			if li.splitExit {
+				tags = li.unroll + 1
+			}
 			continue
 		}
 		done[b] = true
-		out = append(out, nodeKey{b, 0})
+		for t := 0; t <= tags; t++ {
+			out = append(out, nodeKey{b, t})
+		}
 	}
 	return out
 }
@@ -210,7 +223,7 @@ func (f *Frame) lookup(st *State, v ssa.Value) Value {
 		return VT{f.vc.B.Int(0)}
 	}
 	if ins, ok := v.(ssa.Instruction); ok && ins.Block() != nil {
-		if f.inLoop[ins.Block()] != nil {
+		if f.inLoop[ins.Block()] != nil || f.noMerge() {
 			if r, ok := st.lenv[v]; ok {
 				return r
 			}
@@ -233,7 +246,7 @@ func (f *Frame) define(st *State, ins ssa.Instruction, v ssa.Value, val Value) {
 	if val == nil {
 		val = f.vc.freshValue(f.prefix+v.Name()+"_bad", v.Type())
 	}
-	if f.inLoop[ins.Block()] != nil {
+	if f.inLoop[ins.Block()] != nil || f.noMerge() {
 		st.lenv[v] = val
 		return
 	}
@@ -366,6 +379,11 @@ func (f *Frame) oblige(st *State, kind, detail, text string, pos token.Pos, goal
 	}
 	o := &Obligation{Name: f.oblName(kind, detail), Kind: kind, Func: funcKey(f.fn), Text: text,
 		Hyps: []*Term{st.pc}, Goal: goal, NFacts: len(f.vc.facts), vc: f.vc, Clause: cl}
+	// facts created while evaluating the goal itself belong to the current state as well
+	o.FIdx = append([]int{}, st.fidx...)
+	if f.vc.cur != nil && f.vc.cur != st {
+		o.FIdx = append(o.FIdx, f.vc.cur.fidx...)
+	}
 	if pos.IsValid() {
 		o.Pos = f.vc.P.SSA.Fset.Position(pos).String()
 	}
@@ -443,6 +461,20 @@ func (f *Frame) run(st *State, args []Value) (*State, []Value, error) {
 		}
 		vals[i] = acc
 	}
+	if len(f.returns[0].ghosts) > 0 {
+		f.ghostVals = make([]Value, len(f.returns[0].ghosts))
+		for i := range f.ghostVals {
+			acc := f.returns[0].ghosts[i]
+			accPC := f.returns[0].st.pc
+			for _, r := range f.returns[1:] {
+				if !valueEq(acc, r.ghosts[i]) {
+					acc = f.vc.mergeValue(accPC, acc, r.ghosts[i])
+				}
+				accPC = f.vc.B.Or(accPC, r.st.pc)
+			}
+			f.ghostVals[i] = acc
+		}
+	}
 	return f.vc.mergeStates(sts), vals, nil
 }
 
@@ -462,10 +494,36 @@ func (f *Frame) edgeTarget(from nodeKey, s *ssa.BasicBlock) (nodeKey, string) {
 	if ls != nil && lu == ls {
 		return nodeKey{s, from.iter}, "fwd"
 	}
+	if lu != nil && ls == nil && lu.splitExit {
+		return nodeKey{s, from.iter + 1}, "fwd" // exit tag = iteration + 1
+	}
+	if lu == nil && ls == nil {
+		return nodeKey{s, from.iter}, "fwd" // keep the exit tag
+	}
 	return nodeKey{s, 0}, "fwd"
 }
 
+func (f *Frame) noMerge() bool { return f.c != nil && f.c.NoMerge }
+
 func (f *Frame) execNode(nk nodeKey, ins []inEdge) error {
+	if f.noMerge() && len(ins) > 1 {
+		if li := f.loops[nk.b]; li == nil || li.unroll > 0 {
+			n := 0
+			for _, e := range ins {
+				if e.st.pc.IsFalse() {
+					continue
+				}
+				n++
+				if n > 4096 {
+					return fmt.Errorf("%s: too many paths for nomerge", f.fn.Name())
+				}
+				if err := f.execNode(nk, []inEdge{e}); err != nil {
+					return err
+				}
+			}
+			return nil
+		}
+	}
 	vc := f.vc
 	B := vc.B
 	b := nk.b
@@ -532,6 +590,13 @@ func (f *Frame) execNode(nk nodeKey, ins []inEdge) error {
 		}
 	}
 	f.curNode = nk
+	prevCur := vc.cur
+	vc.cur = st
+	if os.Getenv("GOVC_DBGF") != "" {
+		fmt.Fprintf(os.Stderr, "node b%d/%d: in fidx=%d ins=%d\n", nk.b.Index, nk.iter, len(st.fidx), len(ins))
+		defer func() { fmt.Fprintf(os.Stderr, "node b%d/%d: out fidx=%d\n", nk.b.Index, nk.iter, len(st.fidx)) }()
+	}
+	defer func() { vc.cur = prevCur }()
 	// body
 	for _, in := range b.Instrs {
 		if _, ok := in.(*ssa.Phi); ok {
@@ -597,7 +662,25 @@ func (f *Frame) execInstr(st *State, nk nodeKey, in ssa.Instruction) (bool, erro
 		for i, r := range x.Results {
 			vals[i] = f.lookup(st, r)
 		}
-		f.returns = append(f.returns, retInfo{st: st, vals: vals})
+		ri := retInfo{st: st, vals: vals, line: f.vc.P.SSA.Fset.Position(x.Pos()).Line, tag: nk.iter}
+		if f.top && f.c != nil {
+			for _, g := range f.c.Ghosts {
+				ctx := f.newCtx(st, f.entry)
+				ctx.at = nk.b
+				ctx.atEnd = true
+				res := f.fn.Signature.Results()
+				for i := 0; i < res.Len() && i < len(f.c.Results); i++ {
+					ctx.names[f.c.Results[i]] = CV{vals[i], res.At(i).Type()}
+				}
+				t, err := ctx.evalIntSafe(g.Body)
+				if err != nil {
+					// not evaluable on this return path (variable not in scope): unconstrained
+					t = f.vc.B.Fresh(f.prefix+"ghost_"+g.Name, SInt)
+				}
+				ri.ghosts = append(ri.ghosts, VT{t})
+			}
+		}
+		f.returns = append(f.returns, ri)
 		return true, nil
 	case *ssa.Panic:
 		if f.safety() {
@@ -790,7 +873,11 @@ func (vc *VC) freshRegion(st *State, base, size *Term) {
 	B := vc.B
 	for _, r := range vc.regions {
 		// disjointness is only stated against non-empty regions
-		vc.fact(B.Or(B.Le(B.Add(base, size), r.Base), B.Le(B.Add(r.Base, r.Size), base), B.Le(r.Size, B.Int(0))))
+		ext := r.Size
+		if r.Own != nil {
+			ext = r.Own
+		}
+		vc.fact(B.Or(B.Le(B.Add(base, size), r.Base), B.Le(B.Add(r.Base, ext), base), B.Le(ext, B.Int(0))))
 	}
 	vc.regions = append(vc.regions, Region{Base: base, Size: size, What: "alloc", Writable: true})
 }
@@ -819,6 +906,11 @@ func isRawPointer(v ssa.Value, depth int) bool {
 		return isRawPointer(x.X, depth+1)
 	case *ssa.ChangeType:
 		return isRawPointer(x.X, depth+1)
+	case *ssa.UnOp:
+		// a pointer loaded through a reinterpreted location is itself a raw address
+		if x.Op == token.MUL {
+			return isRawPointer(x.X, depth+1)
+		}
 	}
 	return false
 }
@@ -1133,9 +1225,12 @@ func (vc *VC) bitop(op token.Token, a, b *Term, bits uint, signed bool) *Term {
 		// x & (2^k-1) == x mod 2^k for symbolic masks of the widths that occur
 		for _, k := range []uint{1, 8, 16, 32, 64} {
 			if k <= bits {
+				// x & (2^k-1) == x mod 2^k, stated without mod: x = 2^k*q + r, 0 <= r < 2^k
 				m := B.Big(new(big.Int).Sub(pow2(k), big.NewInt(1)))
-				vc.fact(B.Implies(B.Eq(ub, m), B.Eq(r, B.Mod(ua, B.Big(pow2(k))))))
-				vc.fact(B.Implies(B.Eq(ua, m), B.Eq(r, B.Mod(ub, B.Big(pow2(k))))))
+				q1 := B.Fresh("bq", SInt)
+				q2 := B.Fresh("bq", SInt)
+				vc.fact(B.Implies(B.Eq(ub, m), B.And(B.Eq(ua, B.Add(B.Mul(B.Big(pow2(k)), q1), r)), B.Le(B.Int(0), q1))))
+				vc.fact(B.Implies(B.Eq(ua, m), B.And(B.Eq(ub, B.Add(B.Mul(B.Big(pow2(k)), q2), r)), B.Le(B.Int(0), q2))))
 			}
 		}
 		vc.fact(B.Implies(B.Eq(ub, B.Int(0)), B.Eq(r, B.Int(0))))
@@ -1321,6 +1416,18 @@ func (f *Frame) execConvert(st *State, x *ssa.Convert) Value {
 		}
 		if !fsigned && tsigned && tbits > fbits {
 			return VT{t}
+		}
+		if tbits == fbits && !t.IsConst() {
+			// same width, different signedness: one correction, no mod
+			full := B.Big(pow2(tbits))
+			if tsigned {
+				return VT{B.Ite(B.Ge(t, B.Big(pow2(tbits-1))), B.Sub(t, full), t)}
+			}
+			return VT{B.Ite(B.Lt(t, B.Int(0)), B.Add(t, full), t)}
+		}
+		if tbits > fbits && fsigned && !tsigned && !t.IsConst() {
+			// sign-extend then reinterpret
+			return VT{B.Ite(B.Lt(t, B.Int(0)), B.Add(t, B.Big(pow2(tbits))), t)}
 		}
 		return VT{vc.narrow(t, tbits, tsigned)}
 	case isFloat(from) && isFloat(to):
